@@ -404,7 +404,10 @@ class C30(Check):
             raise OracleSplit(f"split:runtime: GNU-ld-linked program printed {ldrun.out.split()}, its arrays imply {expect}")
         if wrun.timed_out:
             raise Inconclusive("wild-linked program timed out")
-        if wrun.rc != ldrun.rc or wrun.out != ldrun.out:
+        if wrun.out == ldrun.out and wrun.rc != ldrun.rc:
+            # same sequence, different exit status: not a question of order
+            raise Discard(f"wild-linked program exits {wrun.rc} after printing the same sequence")
+        if wrun.out != ldrun.out:
             raise Violation("runtime-order", f"stdout differs: GNU ld {ldrun.out.split()} rc={ldrun.rc}; wild {wrun.out.split()} rc={wrun.rc}",
                             {"ld": ldrun.out, "wild": wrun.out, "wild_err": wrun.err[-300:]})
         info["counters"] = {"entries_run": len(ldrun.out.split()) - 1}
